@@ -61,6 +61,7 @@ EVAL_COUNTER = "pairs_compared"
 FLOORS = {
     "quick": {
         "recipes": 100,
+        "shared_equal": 350,
         "pairs_compared": 1800,
         "pairs_straddling_power_of_ten": 1400,
         "pairs_other_hashseed": 500,
@@ -80,6 +81,7 @@ FLOORS = {
     },
     "thorough": {
         "recipes": 600,
+        "shared_equal": 2500,
         "pairs_compared": 38000,
         "pairs_straddling_power_of_ten": 25000,
         "pairs_other_hashseed": 10000,
@@ -354,8 +356,37 @@ def digits(n):
 # ---------------------------------------------------------------- the case
 
 
+SHARED_PER_CASE = {"quick": 60, "thorough": 400}
+
+
+def shared_object_histories(ctx, rng):
+    """In-process histories over forms that share objects (vf/c12_shared.py): the signature of a form alone and after
+    the real code has observed another form over the same spaces / meshes / coefficients."""
+    from .. import c12_shared as SH
+
+    for _ in range(SHARED_PER_CASE[ctx.tier]):
+        p = SH.draw(rng)
+        st, d = SH.run(p)
+        ctx.count("shared_histories")
+        ctx.count("shared_" + st)
+        if st == "rejected":
+            ctx.covered("shared_rejected", p["family"] + ": " + d[:80])
+            continue
+        ctx.covered("shared_families_" + st, p["family"])
+        for o in d["done"]:
+            ctx.covered("shared_earlier_observations", o)
+        if st == "differs":
+            ctx.violation(
+                f"C12/shared-objects/signature-depends-on-earlier-observation/{p['family']}",
+                f"two forms over shared objects ({p['family']}), built twice in the same way: the signature of one form is {d.get('alone')}.. when asked "
+                f"first and {d.get('after')}.. after {'+'.join(d['done'])} of the other form ({d['what']})",
+                {"params": p, "detail": d},
+            )
+
+
 def case(ctx, i, rng):
     tier = ctx.tier
+    shared_object_histories(ctx, random.Random(rng.getrandbits(64)))
     R = BATCH[tier]
     recipes = []
     for k in range(R):
